@@ -13,9 +13,9 @@ impl InstructionGenerator {
     ) {
         let expression_type = expr_pos.expression_type();
         let pos = expr_pos.pos();
-        // The static type of an arithmetic expression is only an approximation of the type
-        // of its value at runtime (a division or MOD of two integers can yield a SINGLE
-        // or a LONG), so such a value is always cast to a numeric target.
+        // The static type of an arithmetic expression or of a built-in function call is only
+        // an approximation of the type of its value at runtime (a division or MOD of two
+        // integers can yield a SINGLE or a LONG), so such a value is always cast to a numeric target.
         let is_approximately_typed = Self::is_arithmetic_expression(&expr_pos.element)
             && matches!(
                 target_type,
@@ -38,6 +38,9 @@ impl InstructionGenerator {
     fn is_arithmetic_expression(expr: &Expression) -> bool {
         match expr {
             Expression::BinaryExpression(_, _, _, _) | Expression::UnaryExpression(_, _) => true,
+            // the value of a built-in function need not have the declared type of the
+            // function either (VAL("5") is an INTEGER, VAL("2.5") a DOUBLE, VARPTR can exceed 32767)
+            Expression::BuiltInFunctionCall(_, _) => true,
             Expression::Parenthesis(child) => Self::is_arithmetic_expression(&child.element),
             _ => false,
         }
